@@ -179,7 +179,29 @@ type selVec struct {
 	Keep bool  `json:"keep"`
 	Bp   []int `json:"bp"`
 	Fw   []int `json:"fw"`
+	Arr  []int `json:"arr"` // arrival order of the connections (replay files); default: a permutation chosen by the vector's number
 }
+
+// vPerms: all arrival orders of the configuration indices 1..n
+func vPerms(n int) [][]int {
+	var out [][]int
+	var rec func(cur []int, used int)
+	rec = func(cur []int, used int) {
+		if len(cur) == n {
+			out = append(out, append([]int(nil), cur...))
+			return
+		}
+		for i := 1; i <= n; i++ {
+			if used&(1<<i) == 0 {
+				rec(append(cur, i), used|1<<i)
+			}
+		}
+	}
+	rec(nil, 0)
+	return out
+}
+
+var vPermTab = map[int][][]int{1: vPerms(1), 2: vPerms(2), 3: vPerms(3), 4: vPerms(4)}
 
 // TestVerifSelect replays every PoolSelect vector: for both strategies and every previous best
 // (0 = none) it runs the real updateBest and observes the choice through BestMasterchainClient.
@@ -209,7 +231,22 @@ func TestVerifSelect(t *testing.T) {
 				panic(err)
 			}
 			sc[i] = &selConn{id: i + 1, seqno: uint32(s), ok: v.C[i].A, rtt: time.Duration(v.C[i].R) * time.Millisecond, cli: &liteclient.Client{}}
-			conns[i] = sc[i]
+		}
+		// The pool is built the way InitializeConnections builds it: addConnection in the order the handshakes finish
+		// (every arrival order is used, chosen by the vector's number). The list it produces is kept; the mocks take
+		// the places of the connections with the same configuration index (a real connection is not OK without a server).
+		arr := v.Arr
+		if len(arr) != v.N {
+			arr = vPermTab[v.N][idx%len(vPermTab[v.N])]
+		}
+		built := New(FirstWorkingConnection)
+		inOrder := true
+		for j, id := range arr {
+			built.addConnection(id, sc[id-1].cli, fmt.Sprintf("cfg-%d", id))
+			inOrder = inOrder && id == j+1
+		}
+		for j, c := range built.conns {
+			conns[j] = sc[c.ID()-1]
 		}
 		for _, st := range []string{BestPingStrategy, FirstWorkingConnection} {
 			allowed := v.Bp
@@ -220,7 +257,7 @@ func TestVerifSelect(t *testing.T) {
 				p := New(Strategy(st))
 				p.conns = conns
 				if prev > 0 {
-					p.bestConn = conns[prev-1]
+					p.bestConn = sc[prev-1]
 				}
 				p.updateBest()
 				ncalls++
@@ -260,12 +297,15 @@ func TestVerifSelect(t *testing.T) {
 						class = "no-good-keeps-previous"
 					}
 					for i := range v.C {
-						if v.C[i].S == "4294967295" {
+						if v.C[i].S == "4294967295" && inOrder { // with an out-of-order arrival that class takes precedence
 							class = "seqno=2^32-1"
 						}
 					}
 					if class != "seqno=2^32-1" {
 						class = st + ":" + class
+						if !inOrder {
+							class += ":out-of-order-arrival"
+						}
 					}
 					classes[class]++
 					if classes[class] <= 50 {
@@ -273,11 +313,115 @@ func TestVerifSelect(t *testing.T) {
 						if v.Keep {
 							exp = []int{prev}
 						}
-						w.emit(vM{"k": "Mismatch", "class": class, "vec": idx, "strategy": st, "prev": prev, "got": got, "exp": exp, "via": via, "v": json.RawMessage(append([]byte(nil), line...))})
+						w.emit(vM{"k": "Mismatch", "class": class, "vec": idx, "strategy": st, "prev": prev, "got": got, "exp": exp, "via": via, "arr": arr, "v": json.RawMessage(append([]byte(nil), line...))})
 					}
 				}
 			}
 		}
 	})
 	w.emit(vM{"k": "Sum", "vectors": nvec, "calls": ncalls, "mismatch": nbad, "classes": classes})
+}
+
+// ---------------------------------------------------------------- arrival order (PoolOrder_Gen)
+type ordVec struct {
+	Arrivals []struct {
+		ID    int   `json:"id"`
+		Order []int `json:"order"`
+	} `json:"arrivals"`
+	First int   `json:"first"`
+	Fw    []int `json:"fw"`
+	Bp    []int `json:"bp"`
+}
+
+func intsEq(a, b []int) bool {
+	if len(a) != len(b) {
+		return false
+	}
+	for i := range a {
+		if a[i] != b[i] {
+			return false
+		}
+	}
+	return true
+}
+
+// TestVerifOrder replays every arrival order: the pool is filled through the real addConnection; after every arrival
+// the list (p.conns and the public Status()) must be in configuration order; on the final pool a refresh of either
+// strategy must choose what PoolSelect chooses on the list in configuration order.
+func TestVerifOrder(t *testing.T) {
+	in, out := os.Getenv("C13_IN"), os.Getenv("C13_OUT")
+	if in == "" || out == "" {
+		t.Skip("driver only")
+	}
+	w := vCreate(out)
+	defer w.close()
+	var nvec, nchecks, nbad int
+	classes := map[string]int{}
+	bad := func(class string, m vM) {
+		nbad++
+		classes[class]++
+		if classes[class] <= 50 {
+			m["k"], m["class"] = "Mismatch", class
+			w.emit(m)
+		}
+	}
+	vReadLines(in, func(line []byte) {
+		var v ordVec
+		if err := json.Unmarshal(line, &v); err != nil {
+			panic(err)
+		}
+		idx := nvec
+		nvec++
+		raw := json.RawMessage(append([]byte(nil), line...))
+		p := New(FirstWorkingConnection)
+		for step, a := range v.Arrivals {
+			p.addConnection(a.ID, &liteclient.Client{}, fmt.Sprintf("cfg-%d", a.ID))
+			var ids, hosts []int
+			for _, c := range p.conns {
+				ids = append(ids, c.ID())
+			}
+			for _, cs := range p.Status().Connections {
+				h := -1
+				fmt.Sscanf(cs.ServerHost, "cfg-%d", &h)
+				hosts = append(hosts, h)
+			}
+			nchecks++
+			if !intsEq(ids, a.Order) || !intsEq(hosts, a.Order) {
+				bad("addConnection:arrival-order", vM{"vec": idx, "step": step, "conns": ids, "status": hosts, "exp": a.Order, "v": raw})
+			}
+			if step == 0 {
+				nchecks++
+				if bc := p.bestConnection(); bc == nil || bc.ID() != v.First {
+					bad("addConnection:first-is-best", vM{"vec": idx, "step": step, "exp": []int{v.First}, "v": raw})
+				}
+			}
+		}
+		// the refresh on the list as built (mocks in the places of the connections with the same index)
+		list := make([]conn, len(p.conns))
+		for j, c := range p.conns {
+			list[j] = &selConn{id: c.ID(), seqno: 1, ok: true, rtt: time.Duration(10-c.ID()) * time.Millisecond, cli: c.Client()}
+		}
+		for _, st := range []string{FirstWorkingConnection, BestPingStrategy} {
+			exp := v.Fw
+			if st == BestPingStrategy {
+				exp = v.Bp
+			}
+			q := New(Strategy(st))
+			q.conns = list
+			q.updateBest()
+			nchecks++
+			got := -1
+			if bc := q.bestConnection(); bc != nil {
+				got = bc.ID()
+			}
+			ok := false
+			for _, e := range exp {
+				ok = ok || e == got
+			}
+			if !ok {
+				bad(st+":choice:out-of-order-arrival", vM{"vec": idx, "strategy": st, "got": got, "exp": exp, "v": raw})
+			}
+		}
+	})
+	w.emit(vM{"k": "Sum", "vectors": nvec, "calls": nchecks, "mismatch": nbad, "classes": classes})
 }
